@@ -1328,7 +1328,7 @@ def run(tier, seed):
                  and n not in ("matmul", "vecdot", "divmod", "clip", "heaviside", "ldexp")]
     # placement of (first operand, second operand, out) in the caller's three cells; `same` = out IS that operand object
     PLACEMENTS = [(0, 1, 2, None), (0, 1, 0, None), (0, 1, 0, "x"), (0, 1, 1, None), (0, 1, 1, "y"),
-                  (0, 0, 2, None), (0, 0, 0, None), (0, 0, 0, "x"), (0, 1, None, None)]
+                  (0, 0, 2, None), (0, 0, 0, None), (0, 0, 0, "x"), (0, 0, 0, "y"), (0, 1, None, None)]
     plain_groups = [(n_, m_) for n_, m_ in groups if "affine" not in n_ and len(m_) >= 2]
 
     def alias_snippet(name, us0, us1, cellvals, pl):
@@ -1388,6 +1388,9 @@ def run(tier, seed):
                 return
         # the model on element 0 of every cell (for the kernels the driver evaluates itself)
         if name not in ("add", "subtract", "multiply", "divide", "maximum", "fmax", "minimum", "fmin", "hypot", "floor_divide", "remainder", "arctan2"):
+            return
+        if name in ("floor_divide", "remainder") and l0 == l1:
+            # x // x-in-another-unit sits exactly on a jump of the floor: one ulp in the conversion factor decides
             return
         try:
             f0 = ["q"] + wire_unit(u0) + ["0"]
